@@ -451,9 +451,14 @@ func check(prop, tier string) int {
 		"wall_s":      time.Since(start).Seconds(),
 		"violations":  violations,
 	}
-	os.MkdirAll(filepath.Join(verifDir, "evidence"), 0o755)
+	evDir := filepath.Join(verifDir, "evidence")
+	if os.Getenv("GOVC_REPO") != "" {
+		// runs against a scratch copy (seeded changes, mutants) never overwrite the committed evidence
+		evDir = filepath.Join(verifDir, "out", "scratch-evidence")
+	}
+	os.MkdirAll(evDir, 0o755)
 	b, _ := json.MarshalIndent(ev, "", " ")
-	os.WriteFile(filepath.Join(verifDir, "evidence", prop+".json"), b, 0o644)
+	os.WriteFile(filepath.Join(evDir, prop+".json"), b, 0o644)
 	fmt.Printf("govc: property=%s tier=%s units=%d obligations=%d discharged=%d cover=%d/%d bounded=%d/%d known=%d violations=%d wall=%.1fs\n",
 		prop, tier, len(units), nObl, nDis, nCoverOK, nCover, nBoundedOK, nBounded, len(knownOut), violations, time.Since(start).Seconds())
 	if violations > 0 {
